@@ -31,7 +31,7 @@ EXHAUSTIVE_SUBSPACES = {"quick": ["all 256 %XX escapes in path/query/fragment/us
                         "thorough": ["all 256 %XX escapes in path/query/fragment/userinfo", "all 32 mount tables x all paths of <= 3 segments"]}
 TIERS = {"quick": dict(nshards=16, urls=2500, triples=900), "thorough": dict(nshards=48, urls=40000, triples=15000)}
 CH = ["a", "é", "☃", "😀", " ", "+", "&", "=", ";", ":", "@", "!", "$", "'", "(", ")", "*", ",", "~", ".", "-", "_", " ", " ", "%41", "%C3%A9", "%2F", "%25",
-      "%FF", "%80", "%3F", "%23", "%26", "%3D", "%2B", "%40", "%3A", "%20", "%7E", "%e2%98%83", "[", "]", "{", "|", "\\", "^", "`", "<", ">", '"', "ß", "İ"]
+      "%FF", "%80", "%3F", "%23", "%26", "%3D", "%2B", "%40", "%3A", "%20", "%7E", "%e2%98%83", "%E2%82", "%F0%9F%98", "%E2", "%C3", "[", "]", "{", "|", "\\", "^", "`", "<", ">", '"', "ß", "İ"]
 HOSTS = [("ascii", "example.com"), ("idn", "☃.net"), ("puny", "xn--n3h.net"), ("ipv4", "127.0.0.1"), ("ipv6", "[::1]"), ("mixed", "EXAMPLE.com"), ("ascii", "a.b.c"), ("idn", "bücher.example")]
 
 
@@ -119,11 +119,11 @@ def check_iri(W, rec, x, hk="ascii"):
 
 def check_builder(W, rec, rng):
     EnvironBuilder, Request, MultiDict, iri_to_uri = W["EnvironBuilder"], W["Request"], W["MultiDict"], W["iri_to_uri"]
-    pch = [c for c in CH if c not in ("%FF", "%80", "%25", "?", "#")] + ["/"]  # %25 would decode to a bare '%' (outside the grammar)
+    pch = [c for c in CH if c not in ("%FF", "%80", "%E2%82", "%F0%9F%98", "%E2", "%C3", "%25", "?", "#")] + ["/"]  # %25 would decode to a bare '%' (outside the grammar)
     path = "/" + "".join(rng.choice(pch) for _ in range(rng.randint(0, 6)))
     if unquote(path).startswith("//"):
         return
-    qch = [c for c in CH if c not in ("%FF", "%80")] + ["?", "#", "/"]
+    qch = [c for c in CH if c not in ("%FF", "%80", "%E2%82", "%F0%9F%98", "%E2", "%C3")] + ["?", "#", "/"]
     q = MultiDict([("".join(rng.choice(qch) for _ in range(rng.choice((0, 1, 1, 2, 3)))), "".join(rng.choice(qch) for _ in range(rng.randint(0, 3)))) for _ in range(rng.randint(0, 3))])
     scheme = rng.choice(["http", "https"])
     hk, host = rng.choice(HOSTS)
